@@ -382,7 +382,21 @@ impl TKnobs {
         k.initial_rtt_ms = *ch.pick("knob.initial_rtt", &[333u64, 10, 50, 100, 1000]);
         k.packet_threshold = *ch.pick("knob.pkt_thresh", &[3u32, 3, 4, 10]);
         k.pacing_cap = *ch.pick("knob.pacing", &[None, None, None, Some(50_000u64), Some(1_000_000)]);
+        k.sane();
         k
+    }
+
+    /// A rate cap must let a full-sized datagram through within a fraction of a probe timeout.
+    /// (50 kB/s with a 64 kB MTU and pad_to_mtu spaces packets 1.3 s apart: a PATH_RESPONSE then
+    /// always arrives after the peer's three-PTO validation timeout, the peer starts over with a
+    /// new challenge on the next packet, and the pair livelocks — an artefact of the knob
+    /// combination, recorded in DESIGN.md, not something the properties speak of.)
+    pub fn sane(&mut self) {
+        if let Some(cap) = self.pacing_cap {
+            let max_mtu = (cap / 20).clamp(1500, 65_527) as u16;
+            self.mtud_upper = self.mtud_upper.min(max_mtu);
+            self.initial_mtu = self.initial_mtu.min(max_mtu);
+        }
     }
 
     pub fn build(&self) -> TransportConfig {
